@@ -33,6 +33,9 @@ def main():
         return 3
     if args.replay:
         return do_replay(args, pm)
+    # replay files of an earlier run of this property would be mistaken for this run's
+    import shutil
+    shutil.rmtree(os.path.join(runner.out_dir(), 'replay', args.prop), ignore_errors=True)
     report = runner.Report(args.prop, args.tier, seed)
     try:
         from pyvc.world import World
